@@ -342,6 +342,10 @@ static int mode_objects(int histories, int len)
             int what = rng.range(0, 9); // 0-1 new, 2 set, 3-4 solve/use, 5 copyctor, 6 copyassign, 7 movector, 8 moveassign, 9 flags
             if (what >= 5 && what <= 8 && k == j && what != 6) j = (k + 1) % NS;
             int n = rng.range(2, 6);
+            // use an empty slot productively: "set/solve" on an empty object becomes "new"
+            bool empty = cls == 0 ? ov.s[k].size() == 0 : cls == 1 ? od.s[k].rows() == 0 : cls == 2 ? ot.s[k].rows() == 0
+                       : cls == 3 ? oc.s[k].non_zero_size() == 0 : cls == 4 ? oo.s[k].non_zero_size() == 0 : ol.n[k] == 0;
+            if (what >= 2 && what <= 4 && empty) what = 0;
             switch (cls) {
             case 0: { // Vector
                 if (what <= 1) { printf("OP vec new %d %d\n", k, n); ov.s[k] = Vector<double>(n); for (int i = 0; i < n; i++) ov.s[k][i] = 0.0;
@@ -380,7 +384,7 @@ static int mode_objects(int histories, int len)
                 oc.obs();
                 break; }
             case 4: { // SparseMatrixCOO
-                if (what <= 1) { int nnz = rng.range(1, 6); printf("OP coo new %d %d %d\n", k, n, nnz); oo.s[k] = SparseMatrixCOO<double>(n, n, nnz);
+                if (what <= 1) { int nnz = rng.range(1, std::min(6, n * n)); printf("OP coo new %d %d %d\n", k, n, nnz); oo.s[k] = SparseMatrixCOO<double>(n, n, nnz);
                     for (int i = 0; i < nnz; i++) { int r = rng.range(0, n - 1), c = rng.range(0, n - 1); double v = pick_value(rng); printf("OP coo set %d %d %d %d %s\n", k, i, r, c, hex(v).c_str()); oo.s[k].row_index(i) = r; oo.s[k].col_index(i) = c; oo.s[k].value(i) = v; } }
                 else if (what <= 3) { int nnz = oo.s[k].non_zero_size(); if (nnz == 0) continue; int i = rng.range(0, nnz - 1); int r = rng.range(0, oo.s[k].rows() - 1), c = rng.range(0, oo.s[k].columns() - 1); double v = pick_value(rng); printf("OP coo set %d %d %d %d %s\n", k, i, r, c, hex(v).c_str()); oo.s[k].row_index(i) = r; oo.s[k].col_index(i) = c; oo.s[k].value(i) = v; }
                 else if (what == 4 || what == 9) { bool b = rng.coin(); printf("OP coo sym %d %d\n", k, (int)b); oo.s[k].is_symmetric(b); }
